@@ -252,7 +252,26 @@ def halves_rule(repo):
     need = ["output_diff = torch.sub(*torch.chunk(y, 2))", "input_diff = torch.sum((_X - _references) * multipliers, dim=(1, 2))",
             "convergence_deltas = abs(output_diff - input_diff)"]
     warn = [n for n in walk_no_nested(fi.node) if isinstance(n, ast.Call) and dotted(n.func) == "warnings.warn"]
-    if [x for x in src if x in need] == need and warn:
+    # the multipliers the check multiplies with (x - ref) are the ones autograd returned: sum((x - ref) * m) = f(x) - f(ref) holds for the
+    # raw multipliers, not for their projection onto the characters (which equals it only for references whose columns sum to one)
+    grads = [n for n in walk_no_nested(fi.node) if isinstance(n, ast.Assign) and len(n.targets) == 1 and isinstance(n.targets[0], ast.Name)
+             and any(isinstance(c, ast.Call) and dotted(c.func) == "torch.autograd.grad" for c in ast.walk(n.value))]
+    moved = None
+    if grads:
+        m_ = grads[0].targets[0].id
+        uses = [n for n in walk_no_nested(fi.node) if isinstance(n, ast.Assign) and any(isinstance(x, ast.Name) and x.id == m_ for x in ast.walk(n.value))
+                and any(isinstance(x, ast.Name) and x.id == "_references" for x in ast.walk(n.value)) and n.lineno > grads[0].lineno
+                and not any(isinstance(c, ast.Call) and dotted(c.func) == "hypothetical_attributions" for c in ast.walk(n.value))]
+        if uses:
+            between = [n for n in walk_no_nested(fi.node) if isinstance(n, ast.Assign) and any(isinstance(t, ast.Name) and t.id == m_ for t in n.targets)
+                       and grads[0].lineno < n.lineno < uses[0].lineno]
+            if between:
+                moved = (between[0], uses[0])
+    if moved:
+        out.append(named("HALVES", fi, role, "`%s` (line %d) rebinds the multipliers between the gradient and the convergence check (line %d): the check sums "
+                         "(x - ref) * projected attributions, which differs from f(x) - f(ref) for references whose columns do not sum to one - spurious "
+                         "warnings" % (unparse(moved[0])[:50], moved[0].lineno, moved[1].lineno), moved[0]))
+    elif [x for x in src if x in need] == need and warn:
         out.append(holds("HALVES", fi, role, "; ".join(need), warn[0]))
     elif any("(_references - _X) * multipliers" in x for x in src):
         out.append(violation("HALVES", fi, role, "input difference has the opposite orientation of the output difference", fi.node))
